@@ -29,7 +29,8 @@ TECHNIQUE = "Lean 4 proof over the linear order of Q + generated dispatch table 
 OPS = ["<", "<=", "==", "!=", ">", ">="]
 NUMS = ["0", "1", "2", "-1", "3/2", "1/2", "0.5", "-7/3", "0.1+0.2", "0.3", "3/10", "1e-3", "10^30", "10^30+1", "1e30",
         "2^53", "2^53+1", "9007199254740993.0", "5!", "120", "C(5,2)", "10", "4!/5!", "1/5", "0.2", "-0.0",
-        "C(10,3)", "3!", "C(4,2)", "6", "6!", "10!/7!", "720", "2*3!", "2*C(4,2)", "12", "C(16,2)", "C(5,3)"]
+        "C(10,3)", "3!", "C(4,2)", "6", "6!", "10!/7!", "720", "2*3!", "2*C(4,2)", "12", "C(16,2)", "C(5,3)",
+        "5!*-2", "-240", "3!/-4", "-3/2", "0*5!", "0*C(4,2)", "-1*3!", "-6", "C(3,5)", "4!/-4!", "3*5!", "360"]
 QTYS = ["1 m", "100 cm", "1 km", "1000 m", "0.001 km", "1 in", "2.54 cm", "1 mi", "1609.344 m", "3 s", "1 min", "60 s", "1 h",
         "1 kg", "1000 g", "1 t", "0 degC", "273.15 K", "32 degF", "1 m^2", "10000 cm^2", "1 ha", "1 m|s", "3.6 km|h", "1 N",
         "1 kg m|s^2", "(1/3) m", "1 usd", "1 l", "1000 ml", "1 pt", "1/2 qt"]
@@ -155,6 +156,10 @@ def check(ctx):
         if k != "ok" or type(v) is not int or v != want2:
             ctx.violation("in:" + text2, text2, "the number %d" % want2, "%s %r (%s)" % (k, v, type(v).__name__), "execute(%r)" % text2)
     ctx.cov["displayed"] = shown
+    # ---- one comparison written once, evaluated over elements of varying kinds (comprehension body): per element as alone
+    import callsite_common
+    callsite_common.run(ctx, ["x %s y" % o for o in OPS] + ["y %s x" % o for o in OPS] + ["x in {y, 2}", "y in {x}"],
+                        ["2", "2.0", "2 m", "#2020-01-01#", "3!", '"a"', "1/2", "200 cm", "0*3!", "[1, 3]"], prefix="cmp-callsite", n=ctx.n(250, 3000))
 
 
 # ---- refinement lemmas of the unified pipeline model for this property (Props/Pipeline2.lean): the fragment this check's
